@@ -63,9 +63,12 @@
         (buffer? r) (string "buf " (length r))
         (string "val " (type r))))
 
+(var last-partial 0)
 (defn one-read [f i e n sk buf?]
   # fresh buffer per op so that the result length is the op's own byte count
-  (def r (f (ends [i e]) n))
+  # the buffer is ours, so that bytes a failing (raising) chunk read had already taken from the kernel are still accounted for
+  (def b @"")
+  (def r (try (f (ends [i e]) n b) ([err] (buffer/push (sink i e) b) (set last-partial (length b)) (error err))))
   (when (and r sk) (buffer/push (sink i e) r))
   # a sink far beyond everything that was ever written means duplicated delivery: stop instead of eating memory
   (when (> (length (sink i e)) (get params :maxsink 100000000))
@@ -88,7 +91,7 @@
           s (ends [i e])]
       (start i e n)
       (def [st v] (guarded s "r" n (fn [] (one-read f i e n true false))))
-      (fin st (if (= st :ok) (res-str v) (string/replace-all "\n" " " (string v))))))
+      (fin st (if (= st :ok) (res-str v) (string "partial=" last-partial " " (string/replace-all "\n" " " (string v)))))))
   (case kind
     :write (let [[_ i e p off len as-buf nf] op
                  data (string/slice (payloads p) off (+ off len))
@@ -101,19 +104,21 @@
     :chunk (do-read)
     :nread (do-read)
     :nchunk (do-read)
-    :drain (let [[_ i e mode n] op
+    :drain (let [[_ i e mode n retry] op
                  f ({:read ev/read :chunk ev/chunk :nread net/read :nchunk net/chunk} mode)
                  s (ends [i e])]
              # repeated reads until nil: each one is reported as its own sub-op
              (start i e n)
              (var k 0)
+             (var nerr 0)
              (var going true)
              (while going
                (print "E " name " " idx "." k " " mode " start " i " " e " " n) (flush)
                (def [st v] (guarded s "r" n (fn [] (one-read f i e n true false)) k))
-               (print "E " name " " idx "." k " " mode " end " st " " (if (= st :ok) (res-str v) (string/replace-all "\n" " " (string v)))) (flush)
+               (print "E " name " " idx "." k " " mode " end " st " " (if (= st :ok) (res-str v) (string "partial=" last-partial " " (string/replace-all "\n" " " (string v))))) (flush)
                (++ k)
-               (when (or (= st :err) (nil? v)) (set going false)))
+               (when (= st :err) (++ nerr))
+               (when (or (and (= st :err) (or (not retry) (> nerr 100000))) (and (= st :ok) (nil? v))) (set going false)))
              (fin :ok k))
     :readall (let [[_ i e] op s (ends [i e])]
                (start i e)
